@@ -26,7 +26,7 @@ import WallGo.manager as _MG
 
 from symx import core, npx
 from symx.core import AND, OR, NOT, Cond, Sym, eq, ge, gt, le, lt, ne
-from symx.harness import HarnessDef
+from symx.harness import HarnessDef, bare
 from props.hydrokit import Result, ScipyStubs
 
 EXPLANATION = __doc__
@@ -62,9 +62,9 @@ class Tag:
     __rmul__ = __mul__
 
 
-def make_eom(h, includeOffEq=False, unroll=3, flags_nondet=True):
+def make_eom(h, includeOffEq=False, unroll=3, flags_nondet=True, probe=False):
     h.patch(EOMM, float=npx.symfloat, np=npx.NP())
-    eom = EOMM.EOM.__new__(EOMM.EOM)
+    eom = bare(EOMM.EOM)
     eom.nbrFields = 1
     eom.includeOffEq = includeOffEq
     eom.errTol = h.real("errTol", 1e-6, 1e-1, default=1e-3)
@@ -95,7 +95,7 @@ def make_eom(h, includeOffEq=False, unroll=3, flags_nondet=True):
 
     def wallPressure(vw, wallParams, atol=None, rtol=None, boltzmannResultsInput=None):
         k = len(log)
-        if k >= 4 + unroll:
+        if k >= 5 + unroll:
             raise core.PathAbort("more pressure evaluations than the unrolling bound")
         p = h.fresh("pressure", -1e3, 1e3, default=[0.4, -0.3, 0.0, 0.0, 0.1, 0.2, 0.3, 0.4][k % 8])
         wp = WallParams(widths=np.array([h.fresh("width", 0, None, default=5.0)], dtype=object if h.symbolic else float),
@@ -113,7 +113,7 @@ def make_eom(h, includeOffEq=False, unroll=3, flags_nondet=True):
         return p, wp, rec["bres"], rec["bbg"], hr
     eom.wallPressure = wallPressure
     eom.getBoltzmannFiniteDifference = lambda: Tag(["fd"])
-    st = ScipyStubs(h, nondet_converged=True)
+    st = ScipyStubs(h, nondet_converged=True, probe_after_root=probe)
     h.patch_always(EOMM, scipy=types.SimpleNamespace(optimize=types.SimpleNamespace(root_scalar=st.root_scalar)))
     return eom, hyd, log, st, Tn
 
@@ -184,7 +184,7 @@ def check_result(h, eom, hyd, log, st, res, vmin_in, vmax_in):
 
 
 def h_solvewall(h, includeOffEq):
-    eom, hyd, log, st, Tn = make_eom(h, includeOffEq)
+    eom, hyd, log, st, Tn = make_eom(h, includeOffEq, probe=True)
     vmin = h.real("vmin", 1e-3, 0.98, default=0.05)
     vmax = h.real("vmax", 1e-3, 0.99, default=0.55)
     h.assume(lt(vmin, vmax))
@@ -218,7 +218,7 @@ def h_deflag_window(h):
 def h_history(h, between):
     """two solveWall calls on the same EOM object: the second asks the pressure stub the same
     questions (velocity, guess, tolerance state) in the same order as the first"""
-    eom, hyd, log, st, Tn = make_eom(h, flags_nondet=False)
+    eom, hyd, log, st, Tn = make_eom(h, flags_nondet=False, probe=True)
     # the stub is a function of everything it reads: pressure = UF(vw)
     P = h.ufun("Ptot", lambda v: v - 0.3)
     W = h.ufun("Width", lambda v: 5.0 + v)
@@ -250,6 +250,8 @@ def h_history(h, between):
             r = roots[key]
             if r.converged:
                 f(r.root)
+            if getattr(r, "probe", None) is not None:
+                f(r.probe)
             return r
         r = real_rs(f, *a, bracket=bracket, **k)
         roots[key] = r
@@ -331,7 +333,7 @@ def h_manager(h):
     h.patch(MG, float=npx.symfloat)
     h.patch_numeric(GR)
     h.patch_numeric(G3)
-    m = MG.WallGoManager.__new__(MG.WallGoManager)
+    m = bare(MG.WallGoManager)
     cfg = Config()
     cfg.configGrid.spatialGridSize = 3
     cfg.configGrid.momentumGridSize = 3
@@ -346,8 +348,8 @@ def h_manager(h):
     Tn = h.real("Tn", 0.01, 1e3, default=2.0)
     m.phasesAtTn = types.SimpleNamespace(temperature=Tn)
     m.model = types.SimpleNamespace(fieldCount=2, outOfEquilibriumParticles=[])
-    m.thermodynamics = Thermodynamics.__new__(Thermodynamics)
-    m.hydrodynamics = Hydrodynamics.__new__(Hydrodynamics)
+    m.thermodynamics = bare(Thermodynamics)
+    m.hydrodynamics = bare(Hydrodynamics)
     m.collisionDirectory = None
     guess = h.real("thicknessGuess", 0.5, 50, default=5.0)
     mfp = h.real("meanFreePath", 1, 500, default=50.0)
@@ -397,7 +399,7 @@ def h_manager_rebuild(h):
             self.thermodynamics, self.args = thermodynamics, (tmax, tmin, rtol, atol)
             built.append(self)
     h.patch_always(MG, Hydrodynamics=HydroSpy)
-    m = MG.WallGoManager.__new__(MG.WallGoManager)
+    m = bare(MG.WallGoManager)
     m.config = Config()
     Tn = h.real("Tn", 0.5, 500, default=100.0)
     th1 = types.SimpleNamespace(Tnucl=Tn, tag=1)
@@ -419,7 +421,7 @@ def h_manager_rebuild(h):
 
 HARNESSES = [
     HarnessDef("solveWall", h_solvewall, [dict(includeOffEq=False)],
-               [dict(includeOffEq=False), dict(includeOffEq=True)], max_paths=900, timeout_s=30,
+               [dict(includeOffEq=False), dict(includeOffEq=True)], max_paths=6000, timeout_s=30,
                encodes=[EOMM.EOM.solveWall, WallGoResults.setWallVelocities, WallGoResults.setHydroResults,
                         WallGoResults.setWallParams, WallGoResults.setBoltzmannBackground,
                         WallGoResults.setBoltzmannResults, WallGoResults.setSuccessState],
@@ -429,7 +431,7 @@ HARNESSES = [
                         _MG.WallGoManager.buildEOM, EOMM.EOM.__init__], random_validation=1),
     HarnessDef("manager-rebuild", h_manager_rebuild, [dict()], max_paths=10, timeout_s=30,
                encodes=[_MG.WallGoManager._initHydrodynamics], random_validation=1),
-    HarnessDef("deflagration-window", h_deflag_window, [dict()], max_paths=900, timeout_s=30,
+    HarnessDef("deflagration-window", h_deflag_window, [dict()], max_paths=6000, timeout_s=30,
                encodes=[EOMM.EOM.findWallVelocityDeflagrationHybrid], random_validation=0,
                concrete_alarms=False),
     HarnessDef("two-call-history", h_history, [dict(between="none"), dict(between="failed-run")],
